@@ -241,7 +241,17 @@ def run(ctx):
         r = X.compare(P, lf, X.spec_method(P, ref, refname, PC),
                       live_kw=kw, ref_kw=kw)
         _verdict(run, rule, lf, what, r, m)
-    # reader side: substitute() looks names up lower-cased (C04.R4) -- the
+    # reader side: a name is looked up among the definitions read so far and
+    # nowhere else (the environment only for the ${...} / $(...) 'env' form),
+    # an undefined one is an error (the decision table of C04.R4)
+    from rules import c04
+    sb = m.fn("ZConfig.substitution.substitute")
+    r = X.compare(P, sb, X.spec_function(m, "ref_substitution.py",
+                                         "substitute"),
+                  outcome_norm=c04._with_raise_args)
+    _verdict(run, "C05.R4", sb, "lookup among the definitions read so far",
+             r, m)
+    # substitute() looks names up lower-cased (C04.R4) -- the
     # agreement obligation: _split returns name.lower() as its second result
     sp = m.fn("ZConfig.substitution._split")
     r = X.compare(P, sp, X.spec_function(m, "ref_substitution.py", "split"))
